@@ -396,7 +396,7 @@ func declared2(n *Node, kw string) *Node {
 // contributed lists the names a grouping adds to a node that uses it.
 func contributed(gr *Node, depth int) []string {
 	var out []string
-	if depth > 60 {
+	if depth > 4000 {
 		return out
 	}
 	for _, c := range gr.Kids {
@@ -424,7 +424,7 @@ func isData(kw string) bool {
 
 func nestDepth(gr *Node, depth int) int {
 	best := 0
-	if depth > 60 {
+	if depth > 4000 {
 		return 0
 	}
 	var walk func(n *Node)
@@ -1250,7 +1250,7 @@ type c06Visit struct {
 }
 
 func (g *c06) expand(v *c06Visit, mod *Module, n *Node, cur []c06Step, parentKw string, via []*Node, pend []*Node, depth int) {
-	if depth > 60 {
+	if depth > 4000 {
 		return
 	}
 	for _, c := range n.Kids {
